@@ -126,7 +126,8 @@ std::optional<rslang::ExpressionType> RSEquationProcessor::Evaluate(const Entity
         return std::nullopt; // Note: typifications of replacements refer to replaced sets in a loop
       }
       const auto fixedType = schema.RSLang().Evaluate(typificationText);
-      if (!fixedType.has_value() || !std::holds_alternative<rslang::Typification>(fixedType.value())) {
+      if (!fixedType.has_value() || !std::holds_alternative<rslang::Typification>(fixedType.value())
+          || !std::get<rslang::Typification>(fixedType.value()).IsCollection()) {
         return std::nullopt; // Note: replacement is not a set, so it cannot stand for a base set of a typification
       }
       typificationText = std::get<rslang::Typification>(fixedType.value()).B().Base().ToString();
